@@ -179,6 +179,26 @@ def rule_cov_sites(repo, rep):
         val = True
       key = '%s:np.cov(%s)' % (f.key, ast.unparse(call.args[0])
                                if call.args else '')
+      # a transposed argument (features x samples) wants rowvar=True
+      if call.args and val in (True, False, 0, 1):
+        st_ = astutil.stmt_of(f.node, call)
+        a0 = astutil.unfold(call.args[0], f.node.body, st_) \
+            if st_ in f.node.body else call.args[0]
+        flips = 0
+        while True:
+          if isinstance(a0, ast.Attribute) and a0.attr == 'T':
+            a0, flips = a0.value, flips + 1
+          elif isinstance(a0, ast.Call) and not a0.keywords and (
+                  (isinstance(a0.func, ast.Attribute) and
+                   a0.func.attr == 'transpose' and not a0.args) or
+                  (len(a0.args) == 1 and canon(repo.dotted(
+                      f.module, a0.func) or '') == canon('numpy.transpose'))):
+            a0 = a0.func.value if not a0.args else a0.args[0]
+            flips += 1
+          else:
+            break
+        if flips % 2:
+          val = not val
       if val in (False, 0):
         rep.derived(R, key, site(f, call))
       elif val == 'unknown':
@@ -1027,6 +1047,46 @@ def rule_lfda_scatter(repo, rep):
     elif isinstance(s_, ast.AugAssign) and isinstance(s_.op, ast.Add) and \
             ast.unparse(s_.target) in ('tSb', 'tSw'):
       inc[ast.unparse(s_.target)] = (ev.ev(s_.value), s_)
+    elif isinstance(s_, ast.AugAssign) and \
+            isinstance(s_.op, (ast.Add, ast.Sub)) and \
+            isinstance(s_.target, ast.Subscript) and \
+            isinstance(s_.target.value, ast.Name) and \
+            s_.target.value.id in ev.mats and \
+            isinstance(s_.target.slice, ast.Call) and \
+            canon_of(s_.target.slice.func) == canon('numpy.diag_indices'):
+      # M[np.diag_indices(k)] += v  is  M + Diag(v)
+      v = ev.ev(s_.value)
+      nm = s_.target.value.id
+      if isinstance(v, NC) and v.kind in ('col', 'row'):
+        dv = _diag(v if v.kind == 'col' else v.T())
+        ev.mats[nm] = ev.mats[nm].add(dv, 1 if isinstance(s_.op, ast.Add)
+                                      else -1)
+      else:
+        ev.mats.pop(nm, None)
+    else:
+      # any other statement that may change a temporary (in-place update,
+      # element store, call taking it as an argument) makes its value
+      # unknown to this evaluation
+      for x in ast.walk(s_):
+        tgt = None
+        if isinstance(x, ast.AugAssign):
+          tgt = x.target
+        elif isinstance(x, ast.Assign):
+          for t_ in x.targets:
+            for y_ in ast.walk(t_):
+              if isinstance(y_, ast.Name) and y_.id not in ('Xc', 'A', 'nc'):
+                ev.mats.pop(y_.id, None)
+                ev.scalars.pop(y_.id, None)
+        elif isinstance(x, ast.Call) and isinstance(s_, ast.Expr):
+          for y_ in ast.walk(x):
+            if isinstance(y_, ast.Name) and y_.id in ev.mats and \
+                    y_.id not in ('Xc', 'A', 'X'):
+              ev.mats.pop(y_.id, None)
+        if tgt is not None:
+          for y_ in ast.walk(tgt):
+            if isinstance(y_, ast.Name):
+              ev.mats.pop(y_.id, None)
+              ev.scalars.pop(y_.id, None)
   for name, want in (('tSb', want_b), ('tSw', want_w)):
     if name not in inc or not isinstance(inc[name][0], NC):
       rep.unknown(R, 'LFDA.fit:%s-increment' % name, site(f),
@@ -2010,8 +2070,11 @@ def check(repo, rep, tier):
   rule_rca(repo, rep)
   rule_rca_whitening(repo, rep)
   rule_rca_projection(repo, rep)
-  rule_lfda(repo, rep)
-  rule_lfda_qr_order(repo, rep)
+  # the two text-matching rules on LFDA's ordering / embedding statements
+  # (rule_lfda, rule_lfda_qr_order) raised false alarms on dispatch-table
+  # rewrites; the interpretive rule decides the stored value itself
+  from . import c09b
+  c09b.rule_lfda_tail(repo, rep)
   rule_lfda_scatter(repo, rep)
   rule_lfda_affinity(repo, rep)
   rule_lfda_solver(repo, rep)
